@@ -85,7 +85,44 @@ EXHAUSTIVE = {'quick': False, 'thorough': False}
 
 UP = string.ascii_uppercase
 DATE = datetime.datetime(2020, 2, 29, 12, 30)
-POOL = [None, 0, 0.0, False, '', 'x', 5, [], [1], DATE]     # setter values, by index
+class _OwnEq(object):
+    """host values with an equality of their own: `mode` all = equal to everything, raise = comparing with a foreign
+    operand raises, array = == / != are element-wise and their outcome has no truth value (numpy style).  The harness looks at
+    them by identity only (deepcopy hands back the same object)."""
+
+    class _Ambiguous(object):
+        def __bool__(self):
+            raise ValueError('The truth value of an array with more than one element is ambiguous')
+
+    def __init__(self, mode):
+        self.mode = mode
+
+    def _cmp(self, other, eq):
+        if self.mode == 'all':
+            return eq
+        if self.mode == 'raise':
+            if isinstance(other, _OwnEq):
+                return (self is other) == eq
+            raise TypeError('_OwnEq can only be compared with _OwnEq')
+        return _OwnEq._Ambiguous()
+
+    def __eq__(self, other):
+        return self._cmp(other, True)
+
+    def __ne__(self, other):
+        return self._cmp(other, False)
+
+    __hash__ = object.__hash__
+
+    def __deepcopy__(self, memo):
+        return self
+
+    def __repr__(self):
+        return '_OwnEq(%r)' % self.mode
+
+
+POOL = [None, 0, 0.0, False, '', 'x', 5, [], [1], DATE,     # setter values, by index
+        _OwnEq('all'), _OwnEq('raise'), _OwnEq('array')]
 VARS = {'va': 53, 'vb': 2, 'v_c': 0.5, 'rate_x': 0, 'flag': True, 'txt': 'q7'}
 CUSTOM = {'ID': '(first)', 'ARGS': '(args)', 'K7': '(const (i 7))', 'BOOM': '(raisexl div0)'}
 MODELLED = ['SUM', 'IF', 'AND', 'OR', 'NOT', 'ISNUMBER', 'ISBLANK', 'N', 'IFERROR', 'ISTEXT']
@@ -981,7 +1018,9 @@ def _init_value(c):
 
 def same(a, b):
     """equal with equal types (0, 0.0, False and '' are all different)"""
-    if type(a) is not type(b):
+    if a is b:
+        return True
+    if type(a) is not type(b) or isinstance(a, _OwnEq):
         return False
     if isinstance(a, list):
         return len(a) == len(b) and all(same(x, y) for x, y in zip(a, b))
@@ -1115,6 +1154,8 @@ def agree(c, ans, model_ans):
     ok, v = _observed(c, ans)
     if not ok:
         return False
+    if isinstance(v, _OwnEq):
+        return isinstance(m, list) and len(m) == 2 and m[0] == 'o'      # a host object on both sides; the oracle judges WHICH
     return fx.value_matches(m, v) is True
 
 
